@@ -276,7 +276,42 @@ func wellFormed3(j *judge, jsonB []byte) {
 	}
 }
 
+// every $ref of a Swagger document has to name a definition; the two known ways the exporter writes a dangling one
+// (a bare `return ok|error` read as a type, a primitive return type read as a definition name) keep their own keys
+func danglingRefs2(j *judge, doc map[string]interface{}) {
+	defs := asMap(doc["definitions"])
+	var walk func(v interface{}, where string)
+	walk = func(v interface{}, where string) {
+		switch x := v.(type) {
+		case map[string]interface{}:
+			if r, ok := x["$ref"].(string); ok {
+				n := strings.TrimPrefix(r, "#/definitions/")
+				if n == r || defs[n] == nil {
+					switch primClass(n) {
+					case "ok", "error":
+						j.fail("bare-status-as-type", "%s: $ref %s: a `return %s` without payload was exported as a reference to a type of that name", where, r, n)
+					case "string", "int", "bool", "float", "date", "datetime", "bytes":
+						j.fail("any-prim-as-ref", "%s: primitive %s is written as a reference %s", where, n, r)
+					default:
+						j.fail("not-well-formed:dangling-ref", "%s: $ref %s names no definition", where, r)
+					}
+				}
+			}
+			for k, c := range x {
+				walk(c, where+"/"+k)
+			}
+		case []interface{}:
+			for _, c := range x {
+				walk(c, where)
+			}
+		}
+	}
+	walk(doc["paths"], "paths")
+	walk(doc["definitions"], "definitions")
+}
+
 func wellFormed2(j *judge, jsonB []byte, doc map[string]interface{}) {
+	danglingRefs2(j, doc)
 	var k openapi2.T
 	if err := json.Unmarshal(jsonB, &k); err != nil {
 		j.fail("not-well-formed:decode-kin:"+errClass(err), "kin-openapi/openapi2 cannot decode the document: %v", err)
